@@ -18,13 +18,20 @@
      src/backend/interpreter/evaluator/functions/call_impl.cpp (evaluate_function_call_impl, method-call path)
                                           receiver struct type name contains '<'  ->  find_impl_for_struct;
                                           generic instance -> push_type_context(impl_def->get_type_context());
-                                          body; the TypeContextGuard declared next to type_context_pushed pops
-                                          on EVERY exit of the call (normal end, ReturnException, async, and any
-                                          other exception = a run-time error; repair 70336ad).
+                                          body; manual pops at the normal end and at the head of the
+                                          ReturnException handler (each clears type_context_pushed), and the
+                                          TypeContextGuard declared next to type_context_pushed pops on every other
+                                          exit of the call (any other exception = a run-time error; repair 70336ad);
+                                          only THEN interpreter_.pop_scope() leaves the method's scope
+     src/backend/interpreter/core/cleanup.cpp
+                                          pop_scope -> pop_defer_scope (the scope's pending defers run here),
+                                          execute_pre_return_cleanup (a `return` runs the innermost defer level first)
 
    A method body is abstracted to the statements that read or change the type context: an observation of a type
    name (sizeof(ty), new ty: everything that goes through resolve_type_in_context), the declaration of a
-   struct-typed local, a method call on a variable, a function call, an early return, a run-time error.
+   struct-typed local, a method call on a variable, a function call, an early return, a run-time error, and a
+   deferred observation (`defer println(sizeof(ty));`: user code that runs when the scope is left, i.e. at a point
+   of the call protocol that the other statements cannot reach).
 
    Definitions only (total, computable, extractable). *)
 From Coq Require Import String Ascii List Bool Arith ZArith NArith.
@@ -137,7 +144,11 @@ Inductive act : Type :=
 | AFn (g : str)              (* g(n - 1, ...): a plain function, or an instance of a generic function (its body is
                                 the substituted copy Model.instantiate builds): nothing is pushed or popped, the
                                 body runs under whatever context is on the stack *)
-| ARetIf (k : nat)           (* if (n <= k) { return ...; } *)
+| ARetIf (k : nat)           (* if (n <= k) { return ...; }: a return inside a nested block *)
+| ADefer (ty : str)          (* defer println(sizeof(ty)); at the top level of the body: registered in the defer level
+                                of the method's scope, executed when that scope is left *)
+| AEnd                       (* the body of a void method falls off its end (written as the last statement); a body
+                                that simply ends, [], ends with a top-level `return ...;` *)
 | AFail.                     (* a run-time error (division by zero, ...): a C++ exception that is no ReturnException *)
 
 Record method : Type := { m_params : list (str * str); m_body : list act }.
@@ -273,69 +284,103 @@ Inductive flag : Type := FNorm | FRet | FErr.
 
 Definition flag_err (f : flag) : bool := match f with FErr => true | _ => false end.
 
-Record res : Type := { r_out : list str; r_stack : stack; r_cache : icache; r_flag : flag }.
+(* r_pend: the deferred statements of the body's own (method-level) scope that were NOT run when the body was left
+   (most recent first): the caller of the body runs them when it pops the scope - see ACall below *)
+Record res : Type := { r_out : list str; r_stack : stack; r_cache : icache; r_flag : flag; r_pend : list str }.
 
 Definition self_name : str := s2l "self".
 
-(* Mech: the body of a method under the type-context stack.  fuel bounds the number of statements executed. *)
+(* the body is left with its scope-exit statements still pending *)
+Definition stop (st : stack) (ic : icache) (fl : flag) (pend : list str) : res :=
+  {| r_out := []; r_stack := st; r_cache := ic; r_flag := fl; r_pend := pend |}.
+
+(* deferred `println(sizeof(ty))` statements executed under a stack, last registered first *)
+Definition obs_all (st : stack) (dfs : list str) : list str := map (resolve_type_in_context st) dfs.
+
+(* Mech: the body of a method under the type-context stack.  fuel bounds the number of statements executed;
+   dfs = the deferred statements registered so far in the body's scope, most recent first.
+
+   Scope exit (call_impl.cpp, evaluate_function_call_impl; core/cleanup.cpp):
+     - a `return` statement at the TOP level of the body runs execute_pre_return_cleanup() before it throws the
+       ReturnException: the defers of the innermost defer level = the method scope are executed there, while the
+       method's own context is still on the stack;
+     - a `return` inside a nested block (`if (...) { return ...; }`) finds the BLOCK's (empty) level innermost, the
+       method-level defers stay registered; falling off the end of a void method and a run-time error leave them
+       registered as well.  They are executed by interpreter_.pop_scope() -> pop_defer_scope(), which on every one
+       of these paths comes AFTER the type context was popped: the manual pop at the normal end (before the self
+       write-back), the manual pop at the head of `catch (const ReturnException &)`, and for any other exception
+       ~TypeContextGuard (declared inside the function-level try block, so it runs before the `catch (...)`
+       handler that pops the scope).  The pending defers are therefore executed under the CALLER's stack. *)
 Fixpoint run (fuel : nat) (P : program) (st : stack) (ic : icache) (env : list (str * str)) (n : nat)
-         (b : list act) : res :=
+         (dfs : list str) (b : list act) : res :=
   match fuel with
-  | 0 => {| r_out := []; r_stack := st; r_cache := ic; r_flag := FErr |}
+  | 0 => stop st ic FErr []
   | S f =>
       match b with
-      | [] => {| r_out := []; r_stack := st; r_cache := ic; r_flag := FNorm |}
+      | [] =>
+          (* the closing top-level `return ...;` *)
+          {| r_out := obs_all st dfs; r_stack := st; r_cache := ic; r_flag := FNorm; r_pend := [] |}
       | AObs ty :: r =>
-          let x := run f P st ic env n r in
+          let x := run f P st ic env n dfs r in
           {| r_out := resolve_type_in_context st ty :: r_out x; r_stack := r_stack x; r_cache := r_cache x;
-             r_flag := r_flag x |}
-      | ADecl v ty :: r => run f P st ic ((v, ty) :: env) n r
+             r_flag := r_flag x; r_pend := r_pend x |}
+      | ADecl v ty :: r => run f P st ic ((v, ty) :: env) n dfs r
+      | ADefer ty :: r => run f P st ic env n (ty :: dfs) r
       | ARetIf k :: r =>
-          if n <=? k then {| r_out := []; r_stack := st; r_cache := ic; r_flag := FRet |}
-          else run f P st ic env n r
-      | AFail :: _ => {| r_out := []; r_stack := st; r_cache := ic; r_flag := FErr |}
+          if n <=? k then stop st ic FRet dfs
+          else run f P st ic env n dfs r
+      | AEnd :: _ => stop st ic FNorm dfs
+      | AFail :: _ => stop st ic FErr dfs
       | AFn g :: r =>
           match enter_fn P g with
-          | None => {| r_out := []; r_stack := st; r_cache := ic; r_flag := FErr |}
+          | None => stop st ic FErr dfs
           | Some md =>
-              let x := run f P st ic (m_params md) (pred n) (m_body md) in
-              if flag_err (r_flag x) then x
+              let x := run f P st ic (m_params md) (pred n) [] (m_body md) in
+              let late := obs_all (r_stack x) (r_pend x) in
+              if flag_err (r_flag x)
+              then {| r_out := r_out x ++ late; r_stack := r_stack x; r_cache := r_cache x; r_flag := FErr; r_pend := dfs |}
               else
-                let y := run f P (r_stack x) (r_cache x) env n r in
-                {| r_out := r_out x ++ r_out y; r_stack := r_stack y; r_cache := r_cache y; r_flag := r_flag y |}
+                let y := run f P (r_stack x) (r_cache x) env n dfs r in
+                {| r_out := r_out x ++ late ++ r_out y; r_stack := r_stack y; r_cache := r_cache y; r_flag := r_flag y;
+                   r_pend := r_pend y |}
           end
       | ACall v m :: r =>
           match lookup env v with
-          | None => {| r_out := []; r_stack := st; r_cache := ic; r_flag := FErr |}
+          | None => stop st ic FErr dfs
           | Some rty =>
               match enter P ic rty m with
-              | None => {| r_out := []; r_stack := st; r_cache := ic; r_flag := FErr |}
+              | None => stop st ic FErr dfs
               | Some (ic1, pushed, md) =>
                   let st1 := match pushed with Some c => push_type_context c st | None => st end in
-                  let x := run f P st1 ic1 ((self_name, rty) :: m_params md) (pred n) (m_body md) in
-                  (* ~TypeContextGuard: whatever the outcome *)
+                  let x := run f P st1 ic1 ((self_name, rty) :: m_params md) (pred n) [] (m_body md) in
+                  (* the manual pops / ~TypeContextGuard: whatever the outcome *)
                   let st2 := match pushed with Some _ => pop_type_context (r_stack x) | None => r_stack x end in
+                  (* pop_scope() of the callee's scope, after the pop of its context *)
+                  let late := obs_all st2 (r_pend x) in
                   if flag_err (r_flag x)
-                  then {| r_out := r_out x; r_stack := st2; r_cache := r_cache x; r_flag := FErr |}
+                  then {| r_out := r_out x ++ late; r_stack := st2; r_cache := r_cache x; r_flag := FErr; r_pend := dfs |}
                   else
-                    let y := run f P st2 (r_cache x) env n r in
-                    {| r_out := r_out x ++ r_out y; r_stack := r_stack y; r_cache := r_cache y; r_flag := r_flag y |}
+                    let y := run f P st2 (r_cache x) env n dfs r in
+                    {| r_out := r_out x ++ late ++ r_out y; r_stack := r_stack y; r_cache := r_cache y; r_flag := r_flag y;
+                       r_pend := r_pend y |}
               end
           end
       | ATry v m :: r =>
           match lookup env v with
-          | None => {| r_out := []; r_stack := st; r_cache := ic; r_flag := FErr |}
+          | None => stop st ic FErr dfs
           | Some rty =>
               match enter P ic rty m with
               | None =>
                   (* "Undefined function": a run-time error as well, caught by the try *)
-                  run f P st ic env n r
+                  run f P st ic env n dfs r
               | Some (ic1, pushed, md) =>
                   let st1 := match pushed with Some c => push_type_context c st | None => st end in
-                  let x := run f P st1 ic1 ((self_name, rty) :: m_params md) (pred n) (m_body md) in
+                  let x := run f P st1 ic1 ((self_name, rty) :: m_params md) (pred n) [] (m_body md) in
                   let st2 := match pushed with Some _ => pop_type_context (r_stack x) | None => r_stack x end in
-                  let y := run f P st2 (r_cache x) env n r in
-                  {| r_out := r_out x ++ r_out y; r_stack := r_stack y; r_cache := r_cache y; r_flag := r_flag y |}
+                  let late := obs_all st2 (r_pend x) in
+                  let y := run f P st2 (r_cache x) env n dfs r in
+                  {| r_out := r_out x ++ late ++ r_out y; r_stack := r_stack y; r_cache := r_cache y; r_flag := r_flag y;
+                     r_pend := r_pend y |}
               end
           end
       end
@@ -344,60 +389,81 @@ Fixpoint run (fuel : nat) (P : program) (st : stack) (ic : icache) (env : list (
 (* Spec: the same program where every method body runs under ONE fixed context, the one of the instance
    the method belongs to (the hand-specialised copy: the type parameters of a body are bound once, by the
    instantiation, whoever calls it and whatever ran before).  A plain struct's method and a function have no
-   context of their own and inherit `cur` (the model keeps the dynamic scoping of the code there). *)
-Record mres : Type := { q_out : list str; q_cache : icache; q_flag : flag }.
+   context of their own and inherit `cur` (the model keeps the dynamic scoping of the code there).
 
-Fixpoint run_mono (fuel : nat) (P : program) (cur : option tctx) (ic : icache) (env : list (str * str)) (n : nat)
-         (b : list act) : mres :=
+   late = false: the hand-specialised copy proper - a deferred statement belongs to its body and observes the
+   body's context whenever it runs.  late = true: the order of the code - the defers still pending when a body is left
+   are observed under the context of the CALLER's instance. *)
+Record mres : Type := { q_out : list str; q_cache : icache; q_flag : flag; q_pend : list str }.
+
+Definition obs_cur (cur : option tctx) (dfs : list str) : list str := map (resolve_cur cur) dfs.
+
+Definition mstop (late : bool) (cur : option tctx) (ic : icache) (fl : flag) (dfs : list str) : mres :=
+  if late then {| q_out := []; q_cache := ic; q_flag := fl; q_pend := dfs |}
+  else {| q_out := obs_cur cur dfs; q_cache := ic; q_flag := fl; q_pend := [] |}.
+
+Fixpoint run_mono (late : bool) (fuel : nat) (P : program) (cur : option tctx) (ic : icache) (env : list (str * str))
+         (n : nat) (dfs : list str) (b : list act) : mres :=
   match fuel with
-  | 0 => {| q_out := []; q_cache := ic; q_flag := FErr |}
+  | 0 => {| q_out := []; q_cache := ic; q_flag := FErr; q_pend := [] |}
   | S f =>
       match b with
-      | [] => {| q_out := []; q_cache := ic; q_flag := FNorm |}
+      | [] => {| q_out := obs_cur cur dfs; q_cache := ic; q_flag := FNorm; q_pend := [] |}
       | AObs ty :: r =>
-          let x := run_mono f P cur ic env n r in
-          {| q_out := resolve_cur cur ty :: q_out x; q_cache := q_cache x; q_flag := q_flag x |}
-      | ADecl v ty :: r => run_mono f P cur ic ((v, ty) :: env) n r
+          let x := run_mono late f P cur ic env n dfs r in
+          {| q_out := resolve_cur cur ty :: q_out x; q_cache := q_cache x; q_flag := q_flag x; q_pend := q_pend x |}
+      | ADecl v ty :: r => run_mono late f P cur ic ((v, ty) :: env) n dfs r
+      | ADefer ty :: r => run_mono late f P cur ic env n (ty :: dfs) r
       | ARetIf k :: r =>
-          if n <=? k then {| q_out := []; q_cache := ic; q_flag := FRet |}
-          else run_mono f P cur ic env n r
-      | AFail :: _ => {| q_out := []; q_cache := ic; q_flag := FErr |}
+          if n <=? k then mstop late cur ic FRet dfs
+          else run_mono late f P cur ic env n dfs r
+      | AEnd :: _ => mstop late cur ic FNorm dfs
+      | AFail :: _ => mstop late cur ic FErr dfs
       | AFn g :: r =>
           match enter_fn P g with
-          | None => {| q_out := []; q_cache := ic; q_flag := FErr |}
+          | None => mstop late cur ic FErr dfs
           | Some md =>
-              let x := run_mono f P cur ic (m_params md) (pred n) (m_body md) in
-              if flag_err (q_flag x) then x
+              let x := run_mono late f P cur ic (m_params md) (pred n) [] (m_body md) in
+              let lt := obs_cur cur (q_pend x) in
+              if flag_err (q_flag x)
+              then
+                let z := mstop late cur (q_cache x) FErr dfs in
+                {| q_out := q_out x ++ lt ++ q_out z; q_cache := q_cache z; q_flag := FErr; q_pend := q_pend z |}
               else
-                let y := run_mono f P cur (q_cache x) env n r in
-                {| q_out := q_out x ++ q_out y; q_cache := q_cache y; q_flag := q_flag y |}
+                let y := run_mono late f P cur (q_cache x) env n dfs r in
+                {| q_out := q_out x ++ lt ++ q_out y; q_cache := q_cache y; q_flag := q_flag y; q_pend := q_pend y |}
           end
       | ACall v m :: r =>
           match lookup env v with
-          | None => {| q_out := []; q_cache := ic; q_flag := FErr |}
+          | None => mstop late cur ic FErr dfs
           | Some rty =>
               match enter P ic rty m with
-              | None => {| q_out := []; q_cache := ic; q_flag := FErr |}
+              | None => mstop late cur ic FErr dfs
               | Some (ic1, pushed, md) =>
                   let cur1 := match pushed with Some c => Some c | None => cur end in
-                  let x := run_mono f P cur1 ic1 ((self_name, rty) :: m_params md) (pred n) (m_body md) in
-                  if flag_err (q_flag x) then {| q_out := q_out x; q_cache := q_cache x; q_flag := FErr |}
+                  let x := run_mono late f P cur1 ic1 ((self_name, rty) :: m_params md) (pred n) [] (m_body md) in
+                  let lt := obs_cur cur (q_pend x) in
+                  if flag_err (q_flag x)
+                  then
+                    let z := mstop late cur (q_cache x) FErr dfs in
+                    {| q_out := q_out x ++ lt ++ q_out z; q_cache := q_cache z; q_flag := FErr; q_pend := q_pend z |}
                   else
-                    let y := run_mono f P cur (q_cache x) env n r in
-                    {| q_out := q_out x ++ q_out y; q_cache := q_cache y; q_flag := q_flag y |}
+                    let y := run_mono late f P cur (q_cache x) env n dfs r in
+                    {| q_out := q_out x ++ lt ++ q_out y; q_cache := q_cache y; q_flag := q_flag y; q_pend := q_pend y |}
               end
           end
       | ATry v m :: r =>
           match lookup env v with
-          | None => {| q_out := []; q_cache := ic; q_flag := FErr |}
+          | None => mstop late cur ic FErr dfs
           | Some rty =>
               match enter P ic rty m with
-              | None => run_mono f P cur ic env n r
+              | None => run_mono late f P cur ic env n dfs r
               | Some (ic1, pushed, md) =>
                   let cur1 := match pushed with Some c => Some c | None => cur end in
-                  let x := run_mono f P cur1 ic1 ((self_name, rty) :: m_params md) (pred n) (m_body md) in
-                  let y := run_mono f P cur (q_cache x) env n r in
-                  {| q_out := q_out x ++ q_out y; q_cache := q_cache y; q_flag := q_flag y |}
+                  let x := run_mono late f P cur1 ic1 ((self_name, rty) :: m_params md) (pred n) [] (m_body md) in
+                  let lt := obs_cur cur (q_pend x) in
+                  let y := run_mono late f P cur (q_cache x) env n dfs r in
+                  {| q_out := q_out x ++ lt ++ q_out y; q_cache := q_cache y; q_flag := q_flag y; q_pend := q_pend y |}
               end
           end
       end
@@ -405,7 +471,19 @@ Fixpoint run_mono (fuel : nat) (P : program) (cur : option tctx) (ic : icache) (
 
 (* a call from main (empty stack, no context) on a variable of struct type rty *)
 Definition run_main (fuel : nat) (P : program) (ic : icache) (rty m : str) (n : nat) : res :=
-  run fuel P [] ic [(self_name, rty)] (S n) [ACall self_name m].
+  run fuel P [] ic [(self_name, rty)] (S n) [] [ACall self_name m].
+
+(* the same call in the hand-specialised copy *)
+Definition run_main_mono (fuel : nat) (P : program) (ic : icache) (rty m : str) (n : nat) : mres :=
+  run_mono false fuel P None ic [(self_name, rty)] (S n) [] [ACall self_name m].
+
+Fixpoint run_calls_mono (fuel : nat) (P : program) (ic : icache) (calls : list (str * str * nat)) : list mres :=
+  match calls with
+  | [] => []
+  | (rty, m, n) :: r =>
+      let x := run_main_mono fuel P ic rty m n in
+      x :: run_calls_mono fuel P (q_cache x) r
+  end.
 
 (* a sequence of calls from main, the instance registry carried along: (receiver type, method, n) *)
 Fixpoint run_calls (fuel : nat) (P : program) (ic : icache) (calls : list (str * str * nat)) : list res :=
@@ -419,4 +497,4 @@ Fixpoint run_calls (fuel : nat) (P : program) (ic : icache) (calls : list (str *
 (* the stack a caller finds after `try v.m(...)`, whatever happened in the callee *)
 Definition stack_after_try (fuel : nat) (P : program) (st : stack) (ic : icache) (env : list (str * str)) (n : nat)
            (v m : str) : stack :=
-  r_stack (run fuel P st ic env n [ACall v m]).
+  r_stack (run fuel P st ic env n [] [ACall v m]).
